@@ -271,7 +271,7 @@ nd::harnesses! {
     #[kani::unwind(6)] fn c12_sliceref_u64_4() { sliceref_rt::<u64, 4>() }
     #[kani::unwind(6)] fn c12_sliceref_zst_4() { sliceref_rt::<Zst, 4>() }
     #[kani::unwind(6)] fn c12_sliceref_t3_4() { sliceref_rt::<T3, 4>() }
-    #[kani::unwind(6)] fn c12_slices_t3_any_address() { slices_at_any_address() }
+    #[kani::unwind(16)] fn c12_slices_t3_any_address() { slices_at_any_address() }
     #[kani::unwind(8)] fn c12_sliceref_u8_6() { sliceref_rt::<u8, 6>() }
     #[kani::unwind(8)] fn c12_sliceref_u64_6() { sliceref_rt::<u64, 6>() }
     #[kani::unwind(8)] fn c12_sliceref_t3_6() { sliceref_rt::<T3, 6>() }
